@@ -70,6 +70,38 @@ theorem tls_config_failure_is_an_error_every_time (dialOk : Bytes → Bool) (s :
 theorem dialAddr_wraps_iff_isTLS_flag :
     Gen.dialAddr_tls_guard = ["isTLS", "isTLSAlready"] ∧ Gen.dialAddr_tls_guard_count = 1 := by decide
 
+/-- C21, per ATTEMPT: in HostClient.Do's retry loop the hooks may rewrite the request between attempts (the script
+    gives the scheme the request has when each attempt starts).  Whatever they do, an attempt that wrote its request
+    wrote it to a connection of this HostClient whose TLS flag is `isHTTPS` of the scheme the request had AT THAT
+    attempt, and the HostClient's IsTLS equals it: a request rewritten to the other scheme is never written. -/
+theorem every_attempt_rechecks_scheme (dialOk : Bytes → Bool) (s : St) (hinv : Inv s) (i : Nat)
+    (atts : List (Bytes × Bool × Bool)) (k id : Nat) (hw : (retryOn dialOk s i atts).2[k]? = some (.wrote id)) :
+    ∃ (a : Bytes × Bool × Bool) (hc : HC), atts[k]? = some a ∧ s.hcs[i]? = some hc ∧ hc.isTLS = isHTTPS a.1 ∧
+      (retryOn dialOk s i atts).1.conns[id]? = some (⟨hc.addr, isHTTPS a.1, i⟩ : Conn) :=
+  (retryOn_spec dialOk i atts s hinv).2.2.2 k id hw
+
+/-- ... so an attempt whose (rewritten) scheme does not match IsTLS writes nothing -/
+theorem rewritten_attempt_is_refused (dialOk : Bytes → Bool) (s : St) (hinv : Inv s) (i : Nat) (hc : HC)
+    (hi : s.hcs[i]? = some hc) (atts : List (Bytes × Bool × Bool)) (k : Nat) (a : Bytes × Bool × Bool)
+    (ha : atts[k]? = some a) (hne : hc.isTLS ≠ isHTTPS a.1) : ∀ id, (retryOn dialOk s i atts).2[k]? ≠ some (.wrote id) := by
+  intro id hw
+  obtain ⟨a', hc', ea, eh, th, _⟩ := every_attempt_rechecks_scheme dialOk s hinv i atts k id hw
+  rw [ha] at ea; injection ea with ea; subst ea
+  rw [hi] at eh; injection eh with eh; subst eh
+  exact hne th
+
+/-- the scheme check precedes the RoundTrip call among the top-level statements of doNonNilReqResp -/
+def checkBeforeWrite : Bool :=
+  match Gen.schemeCheck_stmt_index, Gen.roundTrip_stmt_index with
+  | some a, some b => decide (a < b)
+  | _, _ => false
+
+/-- REGENERATED facts: the scheme-vs-IsTLS check is a top-level statement of the per-attempt function
+    HostClient.doNonNilReqResp, it precedes the statement that calls RoundTrip (which writes the request), and no
+    other function of the package calls a RoundTrip method - so every transmission is preceded by the check -/
+theorem scheme_check_guards_every_transmission :
+    Gen.roundTrip_callers = ["doNonNilReqResp"] ∧ checkBeforeWrite = true := by decide
+
 /-- Client.Do itself never reports a scheme mismatch: it always picks a HostClient of the right kind -/
 theorem client_never_mismatches (dialOk : Bytes → Bool) (s : St) (hinv : Inv s) (scheme host : Bytes) (keep cfgOk : Bool) :
     (clientDo dialOk s scheme host keep cfgOk).2 ≠ .mismatch :=
@@ -234,6 +266,11 @@ example : ((run allOk {} [.newHC (ofString "[::1]") true false, .host 0 strHTTPS
       .host 0 strHTTPS false]).map (·.2.1)) = [none, some .err, some .err, some .err] ∧
     (lastState allOk {} [.newHC (ofString "[::1]") true false, .host 0 strHTTPS true, .host 0 strHTTPS true]).conns = [] := by
   decide +kernel
+/-- a plaintext HostClient; the first attempt (http) fails after the write, the hook rewrites the URL to https: refused -/
+example : (retryOn allOk (step allOk {} (.newHC (ofString "a.test:80") false)).1 0
+      [(strHTTP, true, true), (strHTTPS, true, false)]).2 = [.wrote 0, .mismatch] := by decide +kernel
+example : (retryOn allOk (step allOk {} (.newHC (ofString "a.test:80") false)).1 0
+      [(strHTTP, true, true), (strHTTP, true, false)]).2 = [.wrote 0, .wrote 1] := by decide +kernel
 example : addMissingPort (ofString "[::1]") true = ofString "[::1]:443" := by decide +kernel
 example : addMissingPort (ofString "[::1]:8080") true = ofString "[::1]:8080" := by decide +kernel
 
